@@ -46,7 +46,7 @@ WIT = ['0 < (phi(0 | read_u8#2(self)?) & 1)']
 WIRE['read_tx'] = [
     ('read_u32', LE, [], [], []),
     ('read_from', None, [], [], []),
-    ('read_u8', None, [], [], ['%s == 0' % INC]),
+    ('read_u8', None, [], [], ['%s <= 0' % INC]),
     ('read_from', None, [], [], []),          # guard shown below: same block as the flag read
     ('read_tx_inputs', None, [INC], [], []),
     ('read_from', None, [], [], []),
@@ -80,7 +80,7 @@ def rule_wire(ctx):
             for k in (3,):
                 if k < len(got):
                     g = list(got[k])
-                    if g[4] == ['%s == 0' % INC]:
+                    if g[4] == ['%s <= 0' % INC]:
                         g[4] = []
                     got[k] = tuple(g)
         n = max(len(got), len(exp))
@@ -95,7 +95,7 @@ def rule_wire(ctx):
     items, labels = wire.grammar(tx)
     flag = [i for i in items if i[1] == 'read_u8']
     second = items[3] if len(items) > 3 else None
-    ctx.check('wire', 'read_tx:marker-arm', len(flag) == 1 and second is not None and tx.dominates(flag[0][7].bb, second[7].bb) and second[6] == ['%s == 0' % INC], tx,
+    ctx.check('wire', 'read_tx:marker-arm', len(flag) == 1 and second is not None and tx.dominates(flag[0][7].bb, second[7].bb) and second[6] == ['%s <= 0' % INC], tx,
               'flag byte and second input count are read only when the first count is 0')
     # read_txs / read_u8_vec / read_256hash / read_block
     rt = prog.one(R + 'read_txs')
@@ -143,7 +143,7 @@ def rule_bind(ctx):
             vec = canon(b.op_expr(pushes[0].args[0]))
             ctx.check('bind', '%s:returns-the-filled-vec' % fn, 'Result::Ok{0: %s}' % vec in canon(b.ret_expr()), b, 'returns %s' % vec)
             ctx.check('bind', '%s:one-push-per-count' % fn, util.loop_bounds(b, pushes[0].bb) and canon(util.loop_bounds(b, pushes[0].bb)[0]) == 'Range::Range{start: 0, end: a2}', pushes[0], 'loop 0..count')
-            g = [x for x in util.guards_at(b, pushes[0].bb) if 'next(' not in x and not x.startswith('branch(')]
+            g = [x for x in util.guards_at(b, pushes[0].bb) if 'next(' not in x and not util.is_ok_guard(x)]
             ctx.check('bind', '%s:unconditional-push' % fn, not g, pushes[0], 'push guarded by %s' % g)
     # hash bytes are wrapped, not transformed: from_byte_array on what read_256hash returned
     for fn in ('read_block_header', 'read_tx_outpoint'):
@@ -211,7 +211,7 @@ def rule_compact(ctx):
     ctx.check('compact', 'conv:u32', conv.get('u32', ('',))[0] == 'read_u32(a1)?' and any('{254}' in x for x in conv.get('u32', ('', []))[1]), rf, 'From<u32>(%s)' % (conv.get('u32'),))
     ctx.check('compact', 'conv:u64', conv.get('u64', ('',))[0] == 'read_u64(a1)?' and any('{255}' in x for x in conv.get('u64', ('', []))[1]), rf, 'From<u64>(%s)' % (conv.get('u64'),))
     d8 = conv.get('u8', ('', []))
-    ctx.check('compact', 'conv:u8-default', d8[0] == 'read_u8(a1)?' and 'read_u8(a1) <= 252' in d8[1], rf, 'From<u8>(marker) under %s' % (d8[1],))
+    ctx.check('compact', 'conv:u8-default', d8[0] == 'read_u8(a1)?' and 'read_u8(a1)? <= 252' in d8[1], rf, 'From<u8>(marker) under %s' % (d8[1],))
     # From impls
     for ty, marker, cap in (('u16', 253, 3), ('u32', 254, 5), ('u64', 255, 9)):
         b = prog.one('<blockchain::proto::varuint::VarUint as std::convert::From<%s>>::from' % ty)
@@ -314,7 +314,7 @@ COLS = {
                'self.header.value.timestamp', 'self.header.value.bits', 'self.header.value.nonce'], 'blocks'),
     'Hashed<blockchain::proto::tx::EvaluatedTx>': (['self.hash', 'a2', 'self.value.version', 'self.value.locktime'], 'transactions'),
     'TxInput': (['a2', 'self.outpoint.txid', 'self.outpoint.index', 'arr_to_hex(self.script_sig)', 'self.seq_no'], 'tx_in'),
-    'EvaluatedTxOut': (['a2', 'a3', 'self.out.value', 'arr_to_hex(self.out.script_pubkey)', 'phi((self.script.address as Some).0 | new())'], 'tx_out'),
+    'EvaluatedTxOut': (['a2', 'a3', 'self.out.value', 'arr_to_hex(self.out.script_pubkey)', 'phi(new() | self.script.address?)'], 'tx_out'),
 }
 
 
@@ -419,7 +419,7 @@ def rule_rows(ctx):
         okr = data[1].endswith('%s>::as_csv' % e[0]) and args == e[1] and ob.loop_depth(c.bb) == e[2]
         ctx.check('rows', 'row:%s' % fname, okr, c, '%s.csv <- %s(%s) at loop depth %d' % (fname, mir.short(data[1]), ', '.join(a[:50] for a in args), ob.loop_depth(c.bb)),
                   bad_detail='%s.csv receives %s(%s) at loop depth %d; expected renderer of %s with (%s) at depth %d' % (fname, data[1], ', '.join(args), ob.loop_depth(c.bb), e[0], ', '.join(e[1]), e[2]))
-        g = [x for x in util.guards_at(ob, c.bb) if 'next(' not in x and not x.startswith('branch(')]
+        g = [x for x in util.guards_at(ob, c.bb) if 'next(' not in x and not util.is_ok_guard(x)]
         ctx.check('rows', 'unconditional:%s' % fname, not g, c, 'row written for every item (guards %s)' % g)
         ctx.check('rows', 'checked:%s' % fname, util.result_is_consumed(ob, c), c, 'write result `?`-checked')
     ctx.check('rows', 'four-files-once-each', seen == {'blocks': 1, 'transactions': 1, 'tx_in': 1, 'tx_out': 1}, ob, 'write sites per file: %s' % seen)
